@@ -91,12 +91,12 @@ def classify_client(raw):
     return out
 
 
-def execute(case, NP, NREQ, rnd):
+def execute(case, NP, NREQ, rnd, threaded=False):
     log = []
     plugins = testplugins.program_plugins(case['prog'], log)
     args = ['--basic-auth', CRED.decode()] if case['auth'] != 'off' else []
     conv = scen.Conversation(args=args, flag_opts={'plugins': plugins},
-                             default_origin='refuse' if case['ending'] == 'refused' else 'accept')
+                             default_origin='refuse' if case['ending'] == 'refused' else 'accept', threaded=threaded)
     c = conv.client()
     resp = b'HTTP/1.1 200 OK\r\nContent-Length: %d\r\n\r\n' % NP + b'_' * NP
     ending = case['ending']
@@ -148,7 +148,7 @@ def run(chk):
         chk.add_tlc('PluginChain -simulate NP=%d' % NP, g)
         traces = []
         for n, case in enumerate(cases):
-            obs = execute(case, NP, NREQ, rnd)
+            obs = execute(case, NP, NREQ, rnd, threaded=(n % 4 == 2))
             if not obs['alive']:
                 chk.notes.append('executor loop died for program %s: %s (reported under C05)' % (case['prog'], obs['loop_error']))
             traces.append({'id': n + 1, 'prog': case['prog'], 'auth': case['auth'], 'ending': case['ending'], 'calls': obs['calls'],
